@@ -386,6 +386,9 @@ def check(fx, rep, tier):
     # control-flow rules of C08 are therefore a necessary clause of this property and are re-evaluated here.
     from .. import core
 
+    # ... and so is the stack discipline: an instruction that pops fewer operands than the EVM leaves a stale constant where a
+    # later SLOAD / SSTORE takes its key from (C07 R07.1, all 256 bytes)
+    core.import_rules(rep, fx, "C07", "R05.6", only_rules=("R07.1",), floor=60, what="stack-effect obligations (C07 R07.1) behind 'the key expression of an executed access'")
     core.import_rules(rep, fx, "C08", "R05.6", floor=50, what="control-flow obligations (C08) behind 'executed storage access'")
     rep.exhaustive = True
     return rep.finish(
